@@ -71,6 +71,14 @@ def theta_points(ref, seed):
     pts["q"] = lo + (hi - lo) * np.array([0.45, 0.58, 0.4, 0.7, 0.35, 0.62, 0.5])[:ref.n]
     if seed:
         pts["seed"] = lo + (hi - lo) * (0.15 + 0.7 * np.random.default_rng([seed, 61]).random(ref.n))
+    # joint values of a few 1e-5 rad (far above the exponential's 1e-6 cut-off, far below any 'is it at home?' shortcut that
+    # is wider than that) on two non-last joints, where the limits allow it
+    tiny = pts["q"].copy()
+    for i, v in ((0, 5e-5), (2, -8e-5)):
+        if i < ref.n - 1 and ref.lo[i] + 1e-3 < v < ref.hi[i] - 1e-3:
+            tiny[i] = v
+    if not np.array_equal(tiny, pts["q"]):
+        pts["tiny"] = tiny
     return pts
 
 
